@@ -148,7 +148,12 @@ def harness_gomod():
 # starts writes its counters to $GOCOVERDIR (set by Check), and Check.finish reports which statements of the
 # property's anchor files / modelled functions the correspondence run actually executed (evidence key
 # impl_coverage).  VERIF_COVER=0 switches it off.  It never decides a verdict.
-COVER = os.environ.get("VERIF_COVER", "1") != "0"
+# OFF by default, and never used for a verdict: `go build -cover` compiles the instrumented files of a module whose
+# go.mod says go < 1.22 with the CURRENT loop-variable semantics (a closure capturing a `for ... range` variable sees a
+# fresh variable per iteration), i.e. the instrumented binary is not the program under test (found with seed C04f, whose
+# defect is exactly such a capture: it vanished in the instrumented harness). Coverage is measured by separate runs
+# (`bin/cover-report --run`, VERIF_COVER=1), whose verdicts are discarded.
+COVER = os.environ.get("VERIF_COVER", "0") == "1"
 REPO_MODULE = "massnet.org/mass-wallet"
 
 
@@ -161,7 +166,7 @@ def go_build(names, race=False, cover=None):
         os.makedirs(BIN, exist_ok=True)
         outs = []
         for n in names:
-            out = os.path.join(BIN, n + ("-race" if race else ""))
+            out = os.path.join(BIN, n + ("-race" if race else "") + ("-cover" if cover else ""))
             extra = ["-race"] if race else []
             if cover:
                 rc, o, e = sh(["go", "list", "-modfile=" + modfile, "-tags", "verif", "-deps", "./cmd/" + n], timeout=300, cwd=HARNESS)
@@ -656,7 +661,18 @@ class Check:
             print("VIOLATION property=%s replay=%s no-failing-input-found" % (self.pid, replay_path))
         cov = dict(self.coverage)
         cov.setdefault("trusted_base", trusted_base)
+        evdir = EVIDENCE
+        if not COVER:
+            # measured by a separate instrumented run (bin/cover-report --run); the last measurement is quoted
+            try:
+                with open(os.path.join(ROOT, "docs", "coverage_summary.json")) as f:
+                    cov["impl_coverage"] = dict(json.load(f).get(self.pid, {}),
+                                                measured_by="bin/cover-report --run (separate -cover build; this run's binaries are uninstrumented)")
+            except Exception:
+                pass
         if COVER:
+            evdir = os.path.join(BUILD, "cov", "evidence")     # a reporting run: never the committed evidence
+            os.makedirs(evdir, exist_ok=True)
             cov["impl_coverage"] = impl_coverage(self.pid, self.covdir)
             try:   # keep the merged counters of the last run per property and tier for bin/cover-report
                 keep = os.path.join(BUILD, "cov", "%s-%s" % (self.pid, self.tier))
@@ -673,7 +689,7 @@ class Check:
         ev = {"property_id": self.pid, "tier": self.tier, "seed": self.seed, "level": self.level,
               "coverage": cov, "assumptions": self.assumptions, "wall_s": round(wall, 2),
               "violations": len(self.violations) + (1 if (no_input_break and not self.violations) else 0)}
-        with open(os.path.join(EVIDENCE, self.pid + ".json"), "w") as f:
+        with open(os.path.join(evdir, self.pid + ".json"), "w") as f:
             json.dump(ev, f, indent=1, default=str)
         shutil.rmtree(self.workdir, ignore_errors=True)
         self.log("done rc=%d wall=%.1fs" % (rc, wall))
